@@ -3792,7 +3792,7 @@ class BoutMesh(Mesh):
                 jyseps2_1 = self.ny // 2
                 ny_inner = self.ny // 2
                 jyseps1_2 = self.ny // 2
-                jyseps2_2 = self.ny
+                jyseps2_2 = self.ny - 1
             elif len(self.y_regions_noguards) == 2:
                 raise ValueError("Unrecognized topology with 2 y-regions")
             elif len(self.y_regions_noguards) == 3:
